@@ -878,6 +878,7 @@ class TestResult(unittest.TestResult):
         self.count = count
         self._stdout_buffer = None
         self._stderr_buffer = None
+        self._std_streams_buffered = False
         self._original_stdout = sys.stdout
         self._original_stderr = sys.stderr
 
@@ -924,12 +925,17 @@ class TestResult(unittest.TestResult):
                 self._stderr_buffer = self._makeBufferedStdStream()
             sys.stdout = self._stdout_buffer
             sys.stderr = self._stderr_buffer
+            self._std_streams_buffered = True
 
     def _restoreStdStreams(self):
         """Restore the buffered standard streams and return any contents."""
-        if self.options.buffer:
-            stdout = sys.stdout.getvalue()
-            stderr = sys.stderr.getvalue()
+        if self.options.buffer and self._std_streams_buffered:
+            # A test can produce several result events (e.g. an error in
+            # the test and another one in tearDown); only the first one
+            # finds the buffered streams installed.
+            self._std_streams_buffered = False
+            stdout = self._stdout_buffer.getvalue()
+            stderr = self._stderr_buffer.getvalue()
             sys.stdout = self._original_stdout
             sys.stderr = self._original_stderr
             self._stdout_buffer.seek(0)
